@@ -392,7 +392,7 @@ pub fn cfg_strategy(rollback: BoxedStrategy<bool>, ext4_weight: u32) -> impl Str
             any::<[u8; 16]>(),
             prop::bool::weighted(0.1),
             rollback,
-            prop::sample::select(vec![0u32, 1, 2, 3, 5, 100]),
+            prop::sample::select(vec![1u32, 1, 2, 3, 5, 100]),
             prop::sample::select(vec![0u32, 0, 1, 2, 3]),
             prop_oneof![
                 (100 - ext4_weight) => Just(Fs::Tmpfs),
